@@ -104,7 +104,8 @@ def _rare_items() -> List[str]:
             "data-after-response", "non-ascii-path", "zero-length-data", "settings-burst", "ping", "unknown-frame",
             "unknown-setting", "client-rst-running", "connect-protocol-no-version", "options-star",
             "path-without-slash", "huge-header-value", "many-cookies", "percent-garbage-path",
-            "window-update-stream", "priority-on-closed", "te-trailers-header", "expect-continue", "head-with-body"]
+            "window-update-stream", "priority-on-closed", "te-trailers-header", "expect-continue", "head-with-body",
+            "late-data-large"]
 
 
 def plan(tier: str) -> dict:
@@ -384,6 +385,26 @@ def _build_rare(tape: Tape, world: World, host: AppHost, case: Optional[dict], i
             st.append(("wait", lambda sc, sid=sid: peer.stream_done(sid), 1.0))
             st.append(send(lambda: hf.DataFrame(sid, data=b"late-data").serialize()
                            + hf.DataFrame(sid, data=b"", flags=["END_STREAM"]).serialize()))
+        elif item == "late-data-large":
+            # the answer comes before the body; the client keeps uploading about one connection window on
+            # that stream, then a sibling needs the connection window for its own upload
+            host.programs[tag] = [("respond", 200, [], [b"early"])]
+            st.append(send(lambda: peer.headers(sid, hdrs(tag, b"POST"))))
+            st.append(("wait", lambda sc, sid=sid: peer.stream_done(sid), 1.0))
+            st.append(send(lambda: b"".join(peer.data_frame(sid, b"L" * 16000) for _ in range(4))))
+            st.append(("sleep", 0.05))
+            up = peer.new_stream()
+            uptag = b"up%d" % index
+            host.programs[uptag] = [("recv_all",), ("respond", 200, [], [b"upload-ok"])]
+            sibs.append((up, uptag))
+            ctx.setdefault("bodies", {})[up] = b"upload-ok"
+
+            def open_upload(sc: Script, up: int = up, uptag: bytes = uptag) -> None:
+                if not sc.ended:
+                    sc.conn.client.send(peer.headers(up, hdrs(uptag, b"POST")))
+                    peer.queue_upload(up, b"U" * 20000, True)
+
+            st.append(("call", open_upload))
         elif item == "non-ascii-path":
             st.append(send(lambda: peer.headers(sid, hdrs(tag, path=b"/caf\xc3\xa9/\xff\xfe"), end_stream=True)))
         elif item == "zero-length-data":
